@@ -16,6 +16,9 @@
 //!     builds the triples (verifier, proof, public inputs, version) and writes
 //!     DIR/verifiers.ndjson, DIR/proofs.ndjson, DIR/triples.ndjson,
 //!     DIR/events.ndjson (one event per triple whose proof decodes)
+//! refverify programs --items ITEMS.json --out DIR   (stdin: NDJSON programs
+//!     {"id":..,"ops":[..]} for `prog::ScriptedCircuit`) same tables, built from
+//!     the caller's honest programs: honest triple + cheap mutations each
 //! refverify events --items ITEMS.json --dir DIR
 //!     (re)computes DIR/events.ndjson from the tables of DIR (used by replay)
 //! refverify judge --dir DIR [--items ITEMS.json]  (needs DIR/scalars.ndjson from TLC)
@@ -617,6 +620,133 @@ fn gen(tier: &str, items_path: &str, out: &str) {
                           "proofs": proofs.len(), "events": stats["events"], "no_event": stats["no_event"]}));
 }
 
+/// `refverify programs`: the same tables as `gen`, built from caller-supplied
+/// scripted programs (stdin NDJSON {"id":.., "ops":[..]}; honest, satisfiable)
+/// instead of the built-in families. Per program: compile, prove (V3,
+/// `ScriptRng`), record the prover's transcript against `ProverItems`, and
+/// emit the honest triple plus cheap mutations (first public input + 1, a_eval
+/// replaced by b_eval, a_comm replaced by b_comm).
+fn programs(items_path: &str, out: &str) {
+    quiet_panics();
+    let seed: u64 = std::env::var("VERIF_SEED").ok().and_then(|s| s.parse().ok()).unwrap_or(1);
+    std::fs::create_dir_all(out).unwrap();
+    let items_all: Value =
+        serde_json::from_reader(BufReader::new(File::open(items_path).expect("items file")))
+            .expect("items json");
+    let mut pps: HashMap<usize, PublicParameters> = HashMap::new();
+    let mut verifiers: Vec<(Vec<u8>, String)> = Vec::new();
+    let mut proofs: Vec<Vec<u8>> = Vec::new();
+    let mut triples: Vec<Value> = Vec::new();
+    let mut ptrace: Vec<Value> = Vec::new();
+    let mut skipped: Vec<Value> = Vec::new();
+
+    let stdin = std::io::stdin();
+    for (k, line) in stdin.lock().lines().enumerate() {
+        let line = line.unwrap();
+        if !line.trim_start().starts_with('{') {
+            continue;
+        }
+        let sc: Value = serde_json::from_str(&line).expect("program json");
+        let id = sc.get("id").map(|v| v.as_str().map(|s| s.to_string()).unwrap_or_else(|| v.to_string()))
+            .unwrap_or_else(|| format!("program-{k}"));
+        let prog = match Program::from_json(&sc) {
+            Ok(p) => p,
+            Err(e) => {
+                skipped.push(json!({"program": id, "why": format!("bad program: {e}")}));
+                continue;
+            }
+        };
+        // size the SRS from the program's own constraint count
+        let mut c = Composer::initialized();
+        if let Err(e) = run_program(&prog, &mut c, None) {
+            let why = match e {
+                RunError::Lib(e) => format!("compose: err:{}", err_class(&e)),
+                RunError::Bad(s) => format!("compose: bad:{s}"),
+            };
+            skipped.push(json!({"program": id, "why": why}));
+            continue;
+        }
+        let cap = (c.constraints() + 6).next_power_of_two().max(1 << 10);
+        let pp = pps.entry(cap).or_insert_with(|| {
+            let mut rng = ScriptRng::seeded(0xC03 ^ cap as u64);
+            PublicParameters::setup(cap, &mut rng).expect("setup")
+        });
+        let circ = ScriptedCircuit::new(prog.clone());
+        let label = format!("ref-{id}");
+        let compiled = guarded(|| Compiler::compile_with_circuit(pp, label.as_bytes(), &circ));
+        let (prover, verifier) = match compiled {
+            Ok(Ok(pv)) => pv,
+            other => {
+                skipped.push(json!({"program": id, "why": format!("compile: {}", outcome(&other))}));
+                continue;
+            }
+        };
+        let vbytes = verifier.to_bytes();
+        let mut rng = ScriptRng::seeded(seed.wrapping_mul(7919).wrapping_add(k as u64));
+        dusk_plonk::verif::transcript_trace_start();
+        let proved = guarded(|| prover.prove_with_version(&mut rng, &circ, PlonkVersion::V3));
+        let ops_prove = take_real_ops();
+        let (proof, pis) = match proved {
+            Ok(Ok(pp_)) => pp_,
+            other => {
+                skipped.push(json!({"program": id, "why": format!("prove: {}", outcome(&other))}));
+                continue;
+            }
+        };
+        let pbytes = proof.to_bytes().to_vec();
+        let rec = (|| -> Result<Value, String> {
+            let pv = parse_verifier(&vbytes)?;
+            let pp_ = parse_proof(&pbytes)?;
+            let items = items_for(&items_all, "prover", 3, pis.len())?;
+            let (_, expected) = run_items(items, &pv, &pp_, &pis)?;
+            let d = diff_ops(&expected, &ops_prove);
+            Ok(json!({"family": id, "phase": "prove", "version": 3, "salt": 0,
+                      "ok": d.is_none(), "diff": d, "ops": ops_prove.len()}))
+        })();
+        ptrace.push(rec.unwrap_or_else(|e| json!({"family": id, "phase": "prove", "ok": false, "error": e})));
+
+        let vid = verifiers.len();
+        verifiers.push((vbytes, id.clone()));
+        let pid = proofs.len();
+        proofs.push(pbytes);
+        let mut push = |kind: &str, proof: Value, pis: &[BlsScalar]| {
+            let tid = triples.len();
+            triples.push(json!({"id": tid, "kind": kind, "family": id, "vid": vid,
+                                "proof": proof, "pis": hexs(pis), "version": 3}));
+        };
+        push("honest", json!({"base": pid}), &pis);
+        if !pis.is_empty() {
+            let mut w = pis.clone();
+            w[0] += BlsScalar::one();
+            push("pi-plus-one", json!({"base": pid}), &w);
+        }
+        push("field-swap", json!({"base": pid, "field": 11, "from": [pid, 12]}), &pis);
+        push("field-swap", json!({"base": pid, "field": 0, "from": [pid, 1]}), &pis);
+    }
+    {
+        let mut w = BufWriter::new(File::create(format!("{out}/verifiers.ndjson")).unwrap());
+        for (vid, (b, fam)) in verifiers.iter().enumerate() {
+            writeln!(w, "{}", json!({"vid": vid, "family": fam, "hex": hex_bytes(b)})).unwrap();
+        }
+        let mut w = BufWriter::new(File::create(format!("{out}/proofs.ndjson")).unwrap());
+        for (pid, b) in proofs.iter().enumerate() {
+            writeln!(w, "{}", json!({"pid": pid, "hex": hex_bytes(b)})).unwrap();
+        }
+        let mut w = BufWriter::new(File::create(format!("{out}/triples.ndjson")).unwrap());
+        for t in &triples {
+            writeln!(w, "{}", t).unwrap();
+        }
+        let mut w = BufWriter::new(File::create(format!("{out}/prover_trace.ndjson")).unwrap());
+        for r in &ptrace {
+            writeln!(w, "{}", r).unwrap();
+        }
+    }
+    let stats = events(items_path, out);
+    println!("{}", json!({"triples": triples.len(), "verifiers": verifiers.len(), "proofs": proofs.len(),
+                          "prover_traces": ptrace.len(), "events": stats["events"],
+                          "no_event": stats["no_event"], "skipped": skipped}));
+}
+
 /// Writes DIR/events.ndjson for the triples of DIR (tables on disk).
 fn events(items_path: &str, dir: &str) -> Value {
     let items_all: Value =
@@ -976,6 +1106,10 @@ fn main() {
     match args.get(1).map(|s| s.as_str()) {
         Some("gen") => gen(
             &arg(&args, "--tier").unwrap_or_else(|| "quick".into()),
+            &arg(&args, "--items").expect("--items"),
+            &arg(&args, "--out").expect("--out"),
+        ),
+        Some("programs") => programs(
             &arg(&args, "--items").expect("--items"),
             &arg(&args, "--out").expect("--out"),
         ),
